@@ -9,7 +9,7 @@ HERE = os.path.dirname(os.path.dirname(os.path.abspath(__file__)))
 sys.path.insert(0, HERE)
 def technique(m):
     base = "machine-checked proof in Coq 8.16: theorems about a hand-written executable Gallina model"
-    tie = "; model tied to the code on every run by a differential correspondence check (model evaluated by vm_compute on the inputs the implementation ran, results compared) and a direct property oracle that searches for the failing input"
+    tie = "; model tied to the code on every run by a differential correspondence check (model evaluated by vm_compute on the inputs the implementation ran, results compared) and a direct property oracle that searches for the failing input (both run twice: under the normal interpreter and under python -O)"
     tr = getattr(m, "TRANSLATED", None)
     if tr:
         n = sum(len(e.get("theorems", [])) for e in tr) if isinstance(tr, list) and tr and isinstance(tr[0], dict) else len(tr)
